@@ -70,7 +70,7 @@ def c18(tier):
             ck.violation("FromString(String(x)) != x for a relationship of the documented string domain", cid)
         for codec in ("json", "url", "proto", "proto_dp", "query"):
             if not ob[codec]:
-                ck.violation("the %s codec does not round-trip" % codec, cid)
+                ck.violation("the %s codec does not round-trip" % codec, dict(cid, grpc_handlers=ob.get("query_handler")) if codec == "query" else cid)
         if l["indom"]:
             ck.nontrivial.add(("v", i))
     ck.sample({"text": cat(strings[len(strings) // 3]["s"]), "automaton": strings[len(strings) // 3]["r"]})
@@ -80,6 +80,6 @@ def c18(tier):
     ck.exhaustive = True
     ck.rule = ("every text over {a, b, :, #, @, (, )} up to length %d parsed by the real FromString and compared with the string-form automaton (result, and re-parse of the printed form); "
                "22 000 structured relationships (fields with separators in every position, subject ids and subject sets) through String/FromString, JSON, URL query and protobuf "
-               "(also as queries with every subset of fields present); non-trivial: texts that parse, values of the documented domain" % maxlen)
+               "(also as queries with every subset of fields present, decoded by the ketoapi functions and by the adapter the gRPC list and delete handlers use); non-trivial: texts that parse, values of the documented domain" % maxlen)
     ck.assumptions = ["for JSON / URL query / protobuf the specification is the identity law over the enumerated value space; only the string form has a model with content"]
     ck.finish()
